@@ -88,16 +88,45 @@ def judge(spec, kind, res):
         return "silent", ""
 
 
+def relevant_files(prop):
+    """source files the property (and the properties whose rules it borrows as premises) is anchored in"""
+    sys.path.insert(0, os.path.dirname(HERE))
+    from krpsa.rules.premises import PREMISES
+    want = {prop} | {src for (src, _r, _w) in PREMISES.get(prop, [])}
+    files = set()
+    for l in open(os.path.join(os.path.dirname(HERE), "properties.jsonl")):
+        d = json.loads(l)
+        if d["id"] in want:
+            files |= set(d.get("anchors", {}).get("files", []))
+    return files
+
+
+def touches(spec, files):
+    """does the variant edit one of `files`? (hand-written variants list their files; patch variants are read from the diff)"""
+    ed = {e["file"] for e in spec.get("edits", [])}
+    if spec.get("patch"):
+        for line in open(os.path.join(HERE, spec["patch"])):
+            if line.startswith("+++ b/"):
+                ed.add(line[6:].strip())
+    return bool(ed & files) or not ed
+
+
 def run_suite(prop, repo, jobs=8, seed=0):
-    """used by `check --tier thorough`: the property's mutants and every variant"""
+    """used by `check --tier thorough`: the property's mutants and every variant that edits a file the property (or one of its
+    premises) is anchored in; VERIF_ALL_VARIANTS=1 runs every variant regardless"""
     import random
     out = {"mutants": {}, "variants": {}}
     details = []
+    files = relevant_files(prop)
+    every = os.environ.get("VERIF_ALL_VARIANTS") == "1"
     for k in ("mutants", "variants"):
         specs = []
         for f in sorted(glob.glob(os.path.join(HERE, k, "*.json"))):
             for s in json.load(open(f)):
                 if k == "mutants" and s.get("property") != prop:
+                    continue
+                if k == "variants" and not every and not touches(s, files):
+                    out[k].setdefault("not-relevant", []).append(s["id"])
                     continue
                 specs.append(s)
         random.Random(seed).shuffle(specs)
